@@ -9,11 +9,6 @@ use bumpalo::Bump;
 
 pub const ALL: &[&str] = &["C01", "C02", "C03", "C04", "C05", "C06", "C07", "C08", "C09", "C10", "C11", "C12", "C13", "C15", "C16"];
 
-pub fn salt(prop: &str) -> u64 {
-    let mut h = crate::rng::Fnv::default();
-    h.str(prop);
-    h.0
-}
 
 /// Oracles whose failure the property's check reports.
 pub fn oracles(prop: &str) -> Vec<&'static str> {
@@ -35,6 +30,9 @@ pub fn scratch_root() -> String {
 /// Draw the per-run configuration of a generated case (swarm): recorded in the Case so that a
 /// replay does not depend on this function.
 pub fn draw_case(prop: &str, engine: &str, seed: u64, tier: &str) -> Case {
+    if engine == "shuttle" {
+        return sh_draw(prop, seed, tier).unwrap_or_else(|| Case::new(prop, engine, seed));
+    }
     let mut r = Rng::new(mix(seed, 0xC0F1));
     let mut c = Case::new(prop, engine, seed);
     c.pagesize = *r.pick(&[1024, 1024, 1024, 1024, 2048, 4096]);
@@ -179,6 +177,7 @@ pub fn execute(case: &Case) -> Verdict {
         "long" => crate::long::execute(case),
         "cfg" => crate::cfg::execute(case),
         "compat" => crate::compat::execute(case),
+        "shuttle" => sh_child("oneshot", case).map(|o| crate::worker::verdict_from(&o)).unwrap_or_else(|e| Verdict { harness_error: Some(e), ..Default::default() }),
         other => Verdict { harness_error: Some(format!("unknown engine {}", other)), ..Default::default() },
     }
 }
@@ -221,4 +220,38 @@ pub fn exec_seq(case: &Case) -> Verdict {
         Ok(v) => v,
         Err(e) => Verdict { harness_error: Some(e), ..Default::default() },
     }
+}
+
+pub fn sh_exe() -> String {
+    std::env::var("JSIM_SH").unwrap_or_else(|_| {
+        let root = std::env::var("VERIF_ROOT").unwrap_or_else(|_| "/verif".to_string());
+        format!("{}/sim-sh/target/release/jsim-sh", root)
+    })
+}
+
+/// Run the shuttle-side binary on a case (JSON on stdin), returning its JSON answer.
+pub fn sh_child(cmd: &str, case: &Case) -> Result<serde_json::Value, String> {
+    use std::io::Write;
+    use std::process::{Command, Stdio};
+    let mut ch = Command::new(sh_exe())
+        .arg(cmd)
+        .stdin(Stdio::piped())
+        .stdout(Stdio::piped())
+        .stderr(Stdio::null())
+        .spawn()
+        .map_err(|e| format!("spawn {}: {}", sh_exe(), e))?;
+    {
+        let mut si = ch.stdin.take().unwrap();
+        let _ = si.write_all(serde_json::to_string(&case.to_json()).unwrap().as_bytes());
+    }
+    let out = ch.wait_with_output().map_err(|e| format!("wait: {}", e))?;
+    if !out.status.success() {
+        return Err(format!("jsim-sh {} ended with {:?}", cmd, out.status));
+    }
+    serde_json::from_slice(&out.stdout).map_err(|e| format!("jsim-sh output: {}", e))
+}
+
+pub fn sh_draw(prop: &str, seed: u64, tier: &str) -> Option<Case> {
+    let out = std::process::Command::new(sh_exe()).args(["draw", prop, &seed.to_string(), tier]).output().ok()?;
+    Case::from_json(&serde_json::from_slice(&out.stdout).ok()?)
 }
